@@ -8,13 +8,18 @@
                         read back raw                            out = [[ok]; bytes]
      OGet p bs          raw bytes bs sit in the kernel map; the real Go code reads them
                                                                  out = [ok] :: member values
+     OVal fam v         the real manager API was called with the VALUE IT MEANS (an IPv6 address, a MAC); the bytes
+                        of the member in the kernel map and whether the real program honoured a packet carrying that
+                        value                                     out = [member bytes; [hit]]
+     OPort site p       the kernel program created a session for a flow with port p; the real Go lookup by the port
+                        NUMBER                                    out = [port bytes in the kernel's key; [found]]
      OMac / OIp / OCid / OVlan / OAlg / OLpm / OHash   key derivations: bytes the real Go code put into the
                         kernel map and whether the real eBPF program (kernel test-run) found / honoured
                         them                                     out = observation vectors, last = [hit]
    The Model answers from Gen/Layouts.v (regenerated declarations) and Model/KeyDeriv.v.
    The acceptor is the property: clause numbers below. *)
 From Coq Require Import NArith List Bool String Arith.
-From Verif Require Import Base.Word Base.Check Model.Layout Model.KeyDeriv.
+From Verif Require Import Base.Word Base.Check Model.Layout Model.KeyDeriv Model.LayoutEnc.
 Import ListNotations.
 Local Open Scope N_scope.
 
@@ -29,7 +34,9 @@ Inductive op :=
 | OVlan (s c p1 p2 : N)
 | OAlg (port proto : N)
 | OLpm (plen : N) (net src : bytes)
-| OHash (cid : bytes).
+| OHash (cid : bytes)
+| OVal (fam : N) (v : bytes)          (* meaning-level value member: 1 = IPv6 binding (AddBindingV6), 2 = server MAC (SetServerConfig) *)
+| OPort (site : N) (p : N).           (* 16-bit port in a key: 1 = nat_key.src_port, 2 = nat_key.dst_port (nat.LookupSession) *)
 
 Definition out := list (list N).
 
@@ -51,6 +58,8 @@ Definition CL_CID : N := 4.
 Definition CL_VLAN : N := 5.
 Definition CL_ALG : N := 6.
 Definition CL_LPM : N := 7.
+Definition CL_VAL : N := 8.     (* address / MAC value member: the stored bytes are the wire bytes the program compares *)
+Definition CL_PORT : N := 9.    (* 16-bit port member of a key: byte order *)
 
 (* ---- known layout defects: (pair name, reason, member index, marker). Empty: every layout defect found so far
    was repaired (known_findings/C06.json, status fixed). A pair that is not ok and not listed is a VIOLATION. *)
@@ -75,7 +84,9 @@ Definition site_marker (site : N) : N := 610 + site.
 (* 1 ebpf.IPToUint32 (PoolAssignment.AllocatedIP -> yiaddr)   2 nat.ipToKey (subscriber_nat key)
    3 qos.ipToKey (qos_egress key)                              4 antispoof.AddBinding (ipv4_addr value)
    5 ebpf.IPToUint32 (ServerConfig.ServerIP -> reply source address)
-   6 nat.ipToKey (PortBlock.PublicIP -> translated source address) *)
+   6 nat.ipToKey (PortBlock.PublicIP -> translated source address)
+   7 ebpf.IPToUint32 (IPPool.Gateway, as pkg/dhcp/pool.go fills it -> router option of the reply)
+   8 ebpf.IPToUint32 (IPPool.DNSPrimary/DNSSecondary -> DNS option of the reply) *)
 Definition ip_go_bytes (site : N) (ip : bytes) : bytes :=
   if site =? 3 then go_ip_bytes_qos ip else go_ip_bytes ip.
 
@@ -124,6 +135,13 @@ Definition step (_ : unit) (o : op) : unit * out * list N :=
       let hit := lpm_entry_matches g (c_lpm_lookup src) in
       (tt, [g; [b2n hit; b2n (in_prefix plen net src)]], if Bool.eqb hit (in_prefix plen net src) then [] else [631])
   | OHash cid => (tt, [le_enc 8 (go_hash_cid cid)], [])
+  | OVal fam v =>
+      let g := if fam =? 1 then go_ip6_member v else go_mac_member v in
+      let c := if fam =? 1 then c_ip6_member v else c_mac_member v in
+      (tt, [g; [b2n (l_eqb g c)]], [])
+  | OPort site p =>   (* nat.LookupSession: natKey{SrcPort: srcPort, DstPort: dstPort} marshalled natively; the kernel's key holds the raw be16 *)
+      let hit := l_eqb (go_port_member p) (c_port_net p) in
+      (tt, [c_port_net p; [b2n hit]], if hit then [] else [650 + site])
   end.
 
 Definition last_flags (o : out) : list N := last o [].
@@ -156,6 +174,12 @@ Definition accept (_ : unit) (o : op) (r : out) : unit + N :=
   | OAlg _ _ => if all_ones (last_flags r) then inl tt else inr CL_ALG
   | OLpm _ _ _ => match last_flags r with [h; w] => if h =? w then inl tt else inr CL_LPM | _ => inr CL_LPM end
   | OHash _ => inl tt
+  | OVal fam v =>   (* the member holds exactly the wire bytes of the value AND the program honoured the packet *)
+      match r with
+      | [bs; [h]] => if l_eqb bs (if fam =? 1 then c_ip6_member v else c_mac_member v) && (h =? 1) then inl tt else inr CL_VAL
+      | _ => inr CL_VAL
+      end
+  | OPort _ _ => if all_ones (last_flags r) then inl tt else inr CL_PORT
   end.
 
 Definition case := list (op * out).
